@@ -41,6 +41,12 @@ func runKeepAliveExecution(t *testing.T, seed int64, log *traceLog) {
 			}
 			meta.PeerPorts = []int{1}
 		}
+		// one execution in eight: an operator with 25-minute permissions and an application that sets
+		// PermissionRefreshInterval to 12 minutes (the channel bindings keep their own 5-minute refresh)
+		longPerm := seed%8 == 5
+		if longPerm {
+			meta.PermTO = 1500
+		}
 		w, err := NewWorld(meta, seed*4) // variant "plain"
 		if err != nil {
 			t.Fatal(err)
@@ -96,6 +102,7 @@ func runKeepAliveExecution(t *testing.T, seed int64, log *traceLog) {
 		cl, err := turn.NewClient(&turn.ClientConfig{
 			STUNServerAddr: w.listen4.addr.String(), TURNServerAddr: w.listen4.addr.String(), Conn: cconn,
 			Username: "u1", Password: "pw-u1", Realm: realm, LoggerFactory: quietLoggerFactory{}, Net: newFakeNet(),
+			PermissionRefreshInterval: map[bool]time.Duration{true: 12 * time.Minute}[longPerm],
 		})
 		if err != nil {
 			t.Fatal(err)
@@ -162,11 +169,19 @@ func runKeepAliveExecution(t *testing.T, seed int64, log *traceLog) {
 		probeIn := func(k string) {
 			pn++
 			pay := []byte(fmt.Sprintf("i%d|%s", pn, strings.Repeat("q", rng.Intn(30))))
+			empty := rng.Intn(6) == 0
+			if empty { // a zero-length datagram first (a NAT keep-alive): it is a datagram like any other
+				_, _ = w.peers[k].WriteTo([]byte{}, relayAddr)
+				synctest.Wait()
+			}
 			_, _ = w.peers[k].WriteTo(pay, relayAddr)
 			synctest.Wait()
 			_ = relay.SetReadDeadline(time.Now().Add(time.Millisecond))
 			buf := make([]byte, 2000)
 			n, from, rerr := relay.ReadFrom(buf)
+			if empty && rerr == nil && n == 0 { // the empty datagram came out first: the probe is next
+				n, from, rerr = relay.ReadFrom(buf)
+			}
 			pa, _ := w.peers[k].LocalAddr().(*net.UDPAddr)
 			got := rerr == nil && bytes.Equal(buf[:n], pay) && from.String() == pa.String()
 			log.add(map[string]any{"e": "ProbeIn", "peer": k, "delivered": got, "t": sec()})
